@@ -72,3 +72,12 @@ SET_FILE_MODE = Contract(
              ("content-untouched", "generated.content == old(generated.content)")],
     modifies=["generated.mode"],
 )
+
+
+SET_FILE_MODE_INIT = Contract(
+    target="nunavut/_postprocessors.py:SetFileMode.__init__",
+    params={"self": SObj("SetFileMode", {"_file_mode": SInt}), "file_mode": SInt},
+    # the mode handed to every generated file is the REQUESTED one: nothing of the process (umask, platform) enters
+    ensures=[("requested-mode-is-kept-as-given", "self._file_mode == file_mode")],
+    modifies=["self._file_mode"],
+)
